@@ -11,6 +11,9 @@ package c15
 
 import (
 	"bufio"
+	"errors"
+	"io"
+	"net"
 	"fmt"
 	"os"
 	"sort"
@@ -25,6 +28,7 @@ import (
 	enc "github.com/named-data/ndnd/std/encoding"
 	basic "github.com/named-data/ndnd/std/engine/basic"
 	"github.com/named-data/ndnd/std/engine/dummy"
+	appface "github.com/named-data/ndnd/std/engine/face"
 	"github.com/named-data/ndnd/std/ndn"
 	rdr "github.com/named-data/ndnd/std/ndn/rdr_2024"
 	spec "github.com/named-data/ndnd/std/ndn/spec_2022"
@@ -122,6 +126,11 @@ type network struct {
 	prod     *hEngine
 	cons     *hEngine
 	realFace *dummy.DummyFace // producer side on the REAL basic.Engine (histories with eng=basic)
+	// consumer side on the REAL basic.Engine (histories with ceng=basic): Data wires go to the consumer's face
+	consDeliver func(data []byte)
+	lastSend    time.Time // last Send attempt of the consumer's face
+	sends       int       // Send attempts of the consumer's face in the current consume op
+	failFrom    int       // the failFrom-th and all later Sends fail (-1: never)
 	sibCalls int              // calls of the harness's sibling handlers on the producer engine
 }
 
@@ -364,6 +373,16 @@ func (n *network) relayInterest(wire []byte) {
 }
 
 func (n *network) deliverData(wire []byte) {
+	n.mu.Lock()
+	cd := n.consDeliver
+	n.mu.Unlock()
+	if cd != nil {
+		cd(wire) // the real engine matches it against its own PIT
+		n.mu.Lock()
+		n.inflight--
+		n.mu.Unlock()
+		return
+	}
 	data, sigCov, err := spec.Spec{}.ReadData(enc.NewBufferReader(wire))
 	n.mu.Lock()
 	n.inflight--
@@ -394,6 +413,66 @@ func (n *network) deliverData(wire []byte) {
 	}
 }
 
+// ------------------------------------------------------------------ consumer faces for the real basic.Engine
+
+// hFace: harness-owned face.Face of the consumer's real engine. Sent Interest wires go to the scripted
+// network, Data wires come back through the engine's onPkt; from the failFrom-th Send of a consume op on,
+// Send fails persistently (the connection to the forwarder is gone).
+type hFace struct {
+	n       *network
+	running bool
+	onPkt   func(r enc.ParseReader) error
+	onError func(err error) error
+}
+
+func (f *hFace) Open() error     { f.running = true; return nil }
+func (f *hFace) Close() error    { f.running = false; return nil }
+func (f *hFace) IsRunning() bool { return f.running }
+func (f *hFace) IsLocal() bool   { return true }
+func (f *hFace) SetCallback(onPkt func(r enc.ParseReader) error, onError func(err error) error) {
+	f.onPkt, f.onError = onPkt, onError
+}
+func (f *hFace) Send(pkt enc.Wire) error {
+	n := f.n
+	n.mu.Lock()
+	n.sends++
+	n.lastSend = time.Now()
+	fail := n.failFrom >= 0 && n.sends >= n.failFrom
+	n.mu.Unlock()
+	if fail {
+		return errors.New("harness: face send failed")
+	}
+	n.relayInterest(pkt.Join())
+	return nil
+}
+
+// streamWrap lets Engine.Start() open a StreamFace that already sits on a connection (hook
+// face.VerifNewStreamFaceOnConn): Open starts the real StreamFace.Run receive loop.
+type streamWrap struct {
+	sf     *appface.StreamFace
+	n      *network
+	opened bool
+}
+
+func (w *streamWrap) Open() error {
+	w.opened = true
+	go w.sf.Run()
+	return nil
+}
+func (w *streamWrap) Close() error    { w.opened = false; return w.sf.Close() }
+func (w *streamWrap) IsRunning() bool { return w.opened && w.sf.IsRunning() }
+func (w *streamWrap) IsLocal() bool   { return true }
+func (w *streamWrap) SetCallback(onPkt func(r enc.ParseReader) error, onError func(err error) error) {
+	w.sf.SetCallback(onPkt, onError)
+}
+func (w *streamWrap) Send(pkt enc.Wire) error {
+	w.n.mu.Lock()
+	w.n.sends++
+	w.n.lastSend = time.Now()
+	w.n.mu.Unlock()
+	return w.sf.Send(pkt)
+}
+
 // ------------------------------------------------------------------ per-history state
 
 type hist struct {
@@ -405,6 +484,8 @@ type hist struct {
 	net              *network
 	prodEng, consEng *hEngine
 	realEng          *basic.Engine
+	consReal         *basic.Engine // consumer side on the real engine (ceng=basic)
+	pipeEnd          net.Conn      // harness end of the consumer's stream face (cface=stream)
 	srv              *object.Client // the client that answers Interests
 	prodMem          *object.Client
 	prodBolt         *object.Client
@@ -417,7 +498,7 @@ var progress atomic.Int64 // watchdog heartbeat
 
 func tmpRoot() string { return common.Env("VERIF_TMP", "/var/tmp") }
 
-func newHist(serve, eng string, sibs []enc.Name) (*hist, error) {
+func newHist(serve, eng string, sibs []enc.Name, ceng, cface string) (*hist, error) {
 	dir, err := os.MkdirTemp(tmpRoot(), "c15-")
 	if err != nil {
 		return nil, err
@@ -469,7 +550,57 @@ func newHist(serve, eng string, sibs []enc.Name) (*hist, error) {
 			return nil, err
 		}
 	}
-	h.cons = object.NewClient(h.consEng, object.NewMemoryStore())
+	h.net.failFrom = -1
+	var consEngine ndn.Engine = h.consEng
+	if ceng == "basic" {
+		var cf appface.Face
+		if cface == "stream" {
+			// real StreamFace on one end of an in-memory pipe; the harness end frames the Interest stream by
+			// TLV length and hands each wire to the network, Data wires are written back in script order
+			c1, c2 := net.Pipe()
+			h.pipeEnd = c2
+			cf = &streamWrap{sf: appface.VerifNewStreamFaceOnConn(c1, true), n: h.net}
+			var wmu sync.Mutex
+			h.net.consDeliver = func(data []byte) {
+				wmu.Lock()
+				defer wmu.Unlock()
+				c2.Write(data)
+			}
+			go func() {
+				r := bufio.NewReader(c2)
+				for {
+					t, err := enc.ReadTLNum(r)
+					if err != nil {
+						return
+					}
+					l, err := enc.ReadTLNum(r)
+					if err != nil {
+						return
+					}
+					l0, l1 := t.EncodingLength(), l.EncodingLength()
+					buf := make([]byte, l0+l1+int(l))
+					t.EncodeInto(buf)
+					l.EncodeInto(buf[l0:])
+					if _, err := io.ReadFull(r, buf[l0+l1:]); err != nil {
+						return
+					}
+					h.net.relayInterest(buf)
+				}
+			}()
+		} else {
+			hf := &hFace{n: h.net}
+			cf = hf
+			h.net.consDeliver = func(data []byte) { hf.onPkt(enc.NewBufferReader(data)) }
+		}
+		timer := basic.NewTimer()
+		passAll := func(enc.Name, enc.Wire, ndn.Signature) bool { return true }
+		h.consReal = basic.NewEngine(cf, timer, sec.NewSha256IntSigner(timer), passAll)
+		if err := h.consReal.Start(); err != nil {
+			return nil, err
+		}
+		consEngine = h.consReal
+	}
+	h.cons = object.NewClient(consEngine, object.NewMemoryStore())
 	if err := h.cons.Start(); err != nil {
 		return nil, err
 	}
@@ -481,6 +612,12 @@ func (h *hist) close() {
 		return
 	}
 	h.cons.Stop()
+	if h.consReal != nil {
+		h.consReal.Stop()
+	}
+	if h.pipeEnd != nil {
+		h.pipeEnd.Close()
+	}
 	h.srv.Stop()
 	if h.realEng != nil {
 		h.realEng.Stop()
@@ -625,7 +762,7 @@ func exec(op string) string {
 				sibs = append(sibs, common.ParseNameText(x))
 			}
 		}
-		h, err := newHist(serve, a["eng"], sibs)
+		h, err := newHist(serve, a["eng"], sibs, a["ceng"], a["cface"])
 		if err != nil {
 			return "harness-error " + err.Error()
 		}
@@ -823,6 +960,13 @@ func exec(op string) string {
 			}
 			scripts = append(scripts, a["script2"])
 		}
+		h.net.mu.Lock()
+		h.net.sends, h.net.failFrom = 0, -1
+		if a["sendfail"] != "" && h.consReal != nil {
+			h.net.failFrom = common.Atoi(a["sendfail"])
+		}
+		h.net.lastSend = time.Now()
+		h.net.mu.Unlock()
 		return h.consume(names, scripts)
 	}
 	return "bad-op"
@@ -877,6 +1021,11 @@ func (h *hist) consume(names []enc.Name, scripts []string) string {
 		progress.Add(1)
 		n.mu.Lock()
 		quiet := len(h.consEng.pending) == 0 && n.inflight == 0
+		if h.consReal != nil {
+			// the real engine's PIT is not visible: every entry times out lifetime+10 ms after its Express
+			// (<= 4.01 s), and a retry shows up as a new Send attempt
+			quiet = n.inflight == 0 && time.Since(n.lastSend) > 4500*time.Millisecond
+		}
 		n.mu.Unlock()
 		if quiet {
 			fin = 1
